@@ -21,6 +21,8 @@ Proof.
   intros I q Hq. unfold upd. destruct (Nat.eqb q c) eqn:E; [|reflexivity].
   apply Nat.eqb_eq in E. subst. contradiction.
 Qed.
+Lemma upd_eq (s : St) c r q : upd s c r q = if Nat.eqb q c then r else s q.
+Proof. reflexivity. Qed.
 Lemma only_upd2 W s c r r' : In c W -> only W s (upd (upd s c r) c r').
 Proof. intros I. eapply only_trans; apply only_upd; exact I. Qed.
 Lemma fold_only {X} W (g : St -> X -> St) l :
@@ -163,8 +165,9 @@ Proof.
   - (* Abs *) intros s s' E. unfold do_abs in E.
     destruct (Z.eqb _ (-1)); [eapply frames_do_mon; eauto; inW|].
     destruct (Z.eqb _ 0); [eapply frames_do_reset; eauto; inW | eapply frames_set_reg; eauto; inW].
-  - (* ABS concrete *) intros s s' E. unfold do_ABS_concrete in E.
-    destruct (Z.eqb _ (-1)); [eapply frames_do_mon; eauto; inW | eapply frames_set_reg; eauto; inW].
+  - (* ABS concrete: the generic Abs since 2fc8894 *) intros s s' E. unfold do_ABS_concrete, do_abs in E.
+    destruct (Z.eqb _ (-1)); [eapply frames_do_mon; eauto; inW|].
+    destruct (Z.eqb _ 0); [eapply frames_do_reset; eauto; inW | eapply frames_set_reg; eauto; inW].
   - apply frames_do_logadd; inW.
   - (* LogSub *) intros s s' E. unfold do_logsub in E. destruct (fisinf F _ _).
     + eapply frames_set_reg; eauto; inW.
@@ -172,8 +175,17 @@ Proof.
   - (* Log1pExp *) intros s s' E. unfold do_log1pexp in E.
     destruct (fleb F _ _); [eapply frames_do_mon; eauto; inW|].
     destruct (fleb F _ _); [eapply frames_seqm; [|exact E]; repeat constructor; fr|].
-    destruct (fleb F _ _); [eapply frames_seqm; [|exact E]; repeat constructor; fr|].
-    eapply frames_set_reg; eauto; inW.
+    destruct (fleb F _ _); [|eapply frames_set_reg; eauto; inW].
+    (* the branch with the internal temporary t, which is restored afterwards: the frame is still {c} *)
+    set (t := S (Nat.max c match a with Rg i => i | Im _ => 0 end)) in *.
+    match type of E with context [seqm ?fs ?s0] => destruct (seqm fs s0) as [s1|e] eqn:E1; [|discriminate];
+      assert (H1 : only [c; t] s0 s1) end.
+    { eapply frames_seqm; [|exact E1]. repeat constructor; fr. }
+    injection E as <-. intros q Hq. rewrite (upd_eq s1 t (s t) q).
+    destruct (Nat.eqb q t) eqn:Eq; [apply Nat.eqb_eq in Eq; subst; reflexivity|].
+    rewrite (H1 q).
+    + rewrite upd_eq, Eq. reflexivity.
+    + intros [X|[X|[]]]; [apply Hq; left; exact X | subst; rewrite Nat.eqb_refl in Eq; discriminate].
   - (* Sigmoid *) intros s s' E. unfold do_sigmoid in E.
     destruct (fleb F _ _); (eapply frames_seqm; [|exact E]); repeat constructor; fr.
   - (* Logistic *) intros s s' E. unfold do_logistic in E. eapply frames_seqm; [|exact E]. repeat constructor; fr.
